@@ -185,9 +185,12 @@ class IndentLogger(Logger):
                     while self._messages:
                         self._sink.write(self._messages.pop(0))
 
-    def _level_message(self, message: str) -> str:
+    def _level_message(self, message: Union[str,Exception]) -> str:
         indent = '  ' * self._level
         bullet = self._bullets.get(self._level,'~')
+
+        #log is documented to take exceptions too (e.g., the warnings an evaluator logs)
+        if not isinstance(message,str): message = ExceptLog().filter(message)
 
         return indent + bullet + message
 
